@@ -2,13 +2,51 @@ package main
 
 // Per-property stated bounds and assumptions (copied into evidence).
 
-var propBounds = map[string]map[string]string{}
+const commonQuick = "all integers, lengths and head arguments are symbolic 64-bit values unless stated; byte-string contents are opaque arrays; loops are unrolled exactly (container sizes are concrete per path); per-query solver timeout 30 s; per-harness wall-clock budget 240 s. "
+const commonThorough = "as quick, with the wider shape bounds below; per-query solver timeout 300 s; per-harness budget 40 min, path cap 3,000,000. "
+
+var propBounds = map[string]map[string]string{
+	"C01": {"quick": commonQuick + "7 algorithms x {Sign1 tagged/untagged/detached, Sign with 1-2 signers, countersignatures over 4 parent kinds ptr/value constructed/decoded, Countersign0, hash envelope, keys from COSE_Key}; one message dimension varied at a time; header maps <= 2 entries; payload/external length 0..2^31-1.",
+		"thorough": commonThorough + "full product of the message dimensions."},
+	"C02": {"quick": commonQuick + "COSE_Sign1 constructed (protected <= 2, unprotected <= 1 benign entries, first value a byte string of any length) and decoded (protected h''/h'a0'/map <= 2 entries, every head width symbolic); payload/external/signature lengths 0..2^31-1; tagged and untagged."},
+	"C03": {"quick": commonQuick + "decoded Sign1 / Sign (1 signer) / countersignature (full + abbreviated) x 7 verifier algorithms x keys on 3 curves; alg matching / arbitrary other / absent; signature length 1..600; one dimension varied at a time.",
+		"thorough": commonThorough + "full product."},
+	"C04": {"quick": commonQuick + "Sign1 / Signature / Countersignature x constructed (alg label in 10 Go spellings, 14 value kinds + absent, protected map nil/non-nil) and decoded (alg as any integer / tstr / bstr / absent, optional extra entry); external nil/empty/non-empty; signer/verifier alg one symbolic int64."},
+	"C05": {"quick": commonQuick + "conforming skeleton + 1 of 11 header features per layer + <= 1 fault position (every key/value/wrapper/arity/head/tag/trailing) replaced by an arbitrary item of depth <= 2; COSE_Sign with 1-2 signatures; countersignature nesting <= 2.",
+		"thorough": commonThorough + "<= 2 simultaneous fault positions, richer arbitrary items."},
+	"C06": {"quick": commonQuick + "as C05 (<= 1 fault) for the message decoders with 5 features; COSE_Key skeletons (EC2 x3, OKP, Symmetric) with one varied dimension or one faulted label/value; unstructured buffers with 7 plausible prefixes; follow-up operations on every accepted value.",
+		"thorough": commonThorough + "<= 2 faults, all 11 features, free-form key maps of 2 arbitrary pairs."},
+	"C07": {"quick": commonQuick + "conforming Sign1 / Sign (1-2 signers) / countersignature (single, list) in arbitrary encodings, signed by the reference implementation with ES256/384/512, EdDSA, PS256; one dimension varied at a time.",
+		"thorough": commonThorough + "full product."},
+	"C08": {"quick": commonQuick + "header maps of 1-2 entries (5 label spellings, 2 value kinds), nested container values, messages of 5 types with countersignature values, 3 Sign helpers, keys of 3 kinds; 3 global map-iteration schedules.",
+		"thorough": commonThorough + "3 entries per map; every range statement picks its own permutation."},
+	"C09": {"quick": commonQuick + "Sign1 (tagged/untagged/detached), Sign (1-2 signers, feature in body or either signer), Signature, Countersignature; 11 header features; all head widths symbolic; one decode/encode step from an arbitrary accepted message (covers any number of cycles)."},
+	"C10": {"quick": commonQuick + "4 parent kinds x ptr/value x full/abbreviated, constructed parents (<= 1 entry per bucket, payload/signature any length) and decoded Sign1 / Signature parents in arbitrary encodings; 9 refusal cases."},
+	"C11": {"quick": commonQuick + "n = 0..4 signatures, m in {n-1,n,n+1} verifiers/signers, every signature length 0..100, symbolic algorithm ids, symbolic failure flags.",
+		"thorough": commonThorough + "n = 0..6."},
+	"C12": {"quick": commonQuick + "base headers with governed / unrelated labels in 3 Go spellings and 3 value kinds, nil/empty maps, raw protected / raw unprotected buckets, hash algorithm symbolic int64, hash length 0..100, content type of 5 kinds, location; verify side: 1-2 governed labels in either bucket with 5 node kinds; one dimension varied at a time.",
+		"thorough": commonThorough + "full product."},
+	"C13": {"quick": commonQuick + "single entry: 12 Go label spellings x 15 Go value kinds, 4 wire label kinds x 13 wire value kinds, x 2 buckets; pairs: integer labels focused on {2,4,5,6,7,other}, 3 spellings, both iteration orders; IV/PIV across buckets.",
+		"thorough": commonThorough + "pairs with all label spellings and unconstrained label values."},
+	"C14": {"quick": commonQuick + "X, Y, D as 256/384/528-bit vectors on P-256/384/521 (all leading-zero patterns), Ed25519 keys; optional kid / ops / base IV / extra parameter."},
+	"C15": {"quick": commonQuick + "key skeletons EC2 x3 / OKP / Symmetric with one varied dimension (odd coordinate length among 8 values, arbitrary curve) or one faulted label/value; key_ops absent / empty / 1-3 entries (ints 0..10 or names)."},
+	"C16": {"quick": commonQuick + "(r,s) as 528/600-bit vectors (signed for the ASN.1 path) on 3 curves; verifier inputs of length 0..140; genuine signatures in 6 alternative forms."},
+	"C17": {"quick": commonQuick + "algorithm id one symbolic int64; RSA modulus size 2..8192 bits; ECDSA keys on P-224/256/384/521 with uninterpreted on-curve flag; Ed25519; foreign crypto.Signer with 3 public key kinds."},
+	"C18": {"quick": commonQuick + "4 message kinds x constructed/decoded x 4 header features; built-in objects of 3 families; key skeletons."},
+	"C19": {"quick": commonQuick + "destination holding a previously decoded message; input as C05 (<= 1 fault, 5 features); 7 decoders.",
+		"thorough": commonThorough + "used / fresh destination, 3 previous shapes, <= 2 faults."},
+	"C20": {"quick": commonQuick + "each signer outcome in {ok, ok-but-empty, error with garbage bytes}; each verifier outcome in {ok, error}; 7 harnesses over Sign1, Sign1Untagged, Sign1Message.Sign, Countersignature.Sign, Countersign0, SignHashEnvelope, 6 Verify forms, built-in signers over a failing crypto.Signer, 5 encoders on empty signatures. Multi-signer fault vectors: C11."},
+}
 
 var propAssumptions = map[string][]string{}
 
 var commonAssumptions = []string{
-	"A-bounds: everything outside the stated bounds is outside the claim",
+	"A-cbor: fxamacker/cbor v2.5.0 behaves as the option-parameterised tree model (DESIGN.md 4.1); options and constants are read from /repo's init and the library's SSA on every run; witness models are replayed against the real library in every run",
+	"A-crypto: hash / sign / verify primitives are uninterpreted; what the signing primitive produced is accepted by the verifying primitive for the same key, hash and bytes; they panic only on their documented preconditions",
+	"A-big: math/big Sign/BitLen/Cmp/Bytes/SetBytes/FillBytes have their documented semantics (bit-vector definitions)",
+	"A-data: Go strings handed to the API are valid UTF-8; integers in values fit int64; header values of kinds tag 0-3 / bignum / time are outside the data model",
 	"A-fmt: error texts / String() outputs are opaque (only identity and %w chains are modelled)",
+	"A-bounds: everything outside the stated bounds is outside the claim",
 }
 
 func boundsText(prop, tier string) string {
